@@ -256,6 +256,15 @@ func runNodes() {
 				}
 			case "f20":
 				record(key, fa, 20)
+			case "s2":
+				record(key, fa, 10.2)
+			case "s4":
+				if r.Intn(2) == 0 {
+					record(key, fa, 10.4)
+				} else {
+					record(key, 7*time.Second, 10.1)
+					record(key, fa/2, 10.7)
+				}
 			case "f30":
 				if r.Intn(2) == 0 {
 					record(key, fa, 30)
